@@ -202,6 +202,14 @@ func scanScenarios(tier string) []scanScenario {
 				out = append(out, pm)
 			}
 		}
+		// --- MATCH patterns with escapes, against element names that contain the special characters themselves
+		// (a seeded change of wave 6 looked "literal" patterns up directly and forgot what a backslash means)
+		special := []string{"a\\b", "ab", "abc", "ab\\", "a*b", "a?b", "[ab]", "a", "b", "\\", "*", "a\\bc", "axb"}
+		for pi, pat := range []string{"a\\\\b", "a\\b", "ab\\", "a\\*b", "a\\?b", "\\[ab\\]", "ab", "a\\bc", "\\\\", "\\*", "a", "nomatch", "a[\\\\]b", "a\\\\*"} {
+			e := scanScenario{Name: fmt.Sprintf("%s/escapes%d", kind, pi), Kind: kind, Initial: special, Match: pat, Counts: []int{1, 3, 100}, MaxMut: 1, MaxSteps: 3}
+			e.Pool = []scanMut{{true, "z1"}, {false, "ab"}}
+			out = append(out, e)
+		}
 	}
 	return out
 }
